@@ -75,11 +75,24 @@ def check(ctx, fm, idx):
             ctx.violation("concrete", f"1-D measurement vector and the same vector as a one-row batch differ (shapes {p1.shape}, {pb.shape})",
                           {"signature": "predict-1d-vs-row", **sig_base})
             return
-        if not np.all(np.isfinite(P)) or not kap < recon.KAPPA_MAX or not full:
+        if not np.all(np.isfinite(P)) or not kap < recon.KAPPA_HARD or not full:
             ctx.count("skipped_numeric(ill-conditioned or rank-deficient sensor rows)")
             continue
         scale = 1 + float(np.max(np.abs(Y))) * (1 + float(np.max(np.abs(B))))
-        tol = 1e-7 * scale * kap * kap
+        # backward-stable solvers: error ≤ c·eps·(κ + κ²·ρ), ρ = relative least-squares residual (0 for consistent systems and
+        # for interpolation); ρ from an independent solve, never from the prediction under test.
+        # (first version: 1e-7·κ² with κ ≤ 1e6 – it could not see a solver that drops singular values below √eps)
+        if ns <= m:
+            rho = 0.0
+        else:
+            xs, *_ = np.linalg.lstsq(M, Y.T, rcond=None)
+            rho = float(np.max(np.abs(M @ xs - Y.T))) / (1 + float(np.max(np.abs(Y))))
+        tol = recon.BUD * scale * kap * (1 + kap * rho) * max(M.shape)
+        if tol > 5e-2 * scale:
+            ctx.count("skipped_numeric(budget too large to judge)")
+            continue
+        if kap > 1e6:
+            ctx.count("judged_ill_conditioned(κ>1e6)")
         # span: P rows are B c for some c
         Cc, *_ = np.linalg.lstsq(B, P.T, rcond=None)
         span_res = float(np.max(np.abs(B @ Cc - P.T)))
@@ -139,6 +152,14 @@ def run(ctx: C.Ctx):
             continue
         ctx.count(f"{fm['desc']['basis']}/{fm['desc']['opt']}")
         check(ctx, fm, idx)
+    # ill-conditioned but full-rank sensor matrices (training examples of very different amplitude, Identity / RandomProjection
+    # bases keep that grading): the solver must keep the weak directions
+    for idx in range(ctx.scale(25, 300)):
+        fm = recon.gen_model(ctx, rng, bases=["identity", "identity", "rp"], opts=["qr"], want_tall=True, force_graded=True)
+        if fm is None:
+            continue
+        ctx.count("graded:" + fm["desc"]["basis"])
+        check(ctx, fm, 10 ** 6 + idx)
 
 
 def replay(ctx: C.Ctx, payload):
